@@ -114,6 +114,9 @@ func c15CtxOne(c *core.Ctx, dir string, k c15CtxCase) {
 }
 
 func c15ContextRun(c *core.Ctx) {
+	if c15Skip(c, "context") {
+		return
+	}
 	dir := core.Scratch("c15context")
 	var idx int64
 	for _, f := range c15CtxFuncs {
